@@ -4,10 +4,10 @@ package c16
 import (
 	"bufio"
 	"bytes"
-	"reflect"
 	"encoding/binary"
 	"encoding/hex"
 	"fmt"
+	"reflect"
 	"testing"
 	"time"
 
